@@ -7,6 +7,8 @@ from common import LEAN
 # property -> list of (module, namespace, regex on theorem names or None for all)
 TABLE = {
     'C01': [('OpyVerif.Proofs.C01', 'Opy', None),
+            ('OpyVerif.Proofs.ClipCode', 'Opy', r'code_(agentClip|searchClip|hyperClip)(_inBox|_inUnitBox)?$'),
+            ('OpyVerif.Proofs.ClipProg', 'Opy', None), ('OpyVerif.Generated.ClipLoops', 'Opy.Gen', None),
             ('OpyVerif.Proofs.C06', 'Opy', r'clip(Pos|All|Hyper|Row)?_(inBox|mem|shape|length|inUnitBox)|boundsOk_unit'),
             ('OpyVerif.Proofs.C03', 'Opy', r'clip_precedes_hook|sweep_follows_hook'),
             ('OpyVerif.Generated.Skeletons', 'Opy.Gen', r'skel_\w+_good|evalSites_ok|evalSites_nonempty')],
@@ -26,6 +28,8 @@ TABLE = {
             ('OpyVerif.Generated.Skeletons', 'Opy.Gen', r'skel_\w+_good')],
     'C05': [('OpyVerif.Proofs.C05', 'Opy', None)],
     'C06': [('OpyVerif.Proofs.C06', 'Opy', None),
+            ('OpyVerif.Proofs.ClipCode', 'Opy', None), ('OpyVerif.Proofs.ClipProg', 'Opy', None),
+            ('OpyVerif.Generated.ClipLoops', 'Opy.Gen', None),
             ('OpyVerif.Generated.Guards', 'Opy.Gen', r'guard_mismatches|guardTable_size'),
             ('OpyVerif.Proofs.C14', 'Opy.G', r'agree_sound|accepts_iff_all_domains'),
             ('OpyVerif.Proofs.C18real', 'Opy', r'uniformAffine_mem')],
@@ -43,7 +47,9 @@ TABLE = {
     'C12': [('OpyVerif.Proofs.C12', 'Opy', None),
             ('OpyVerif.Generated.Skeletons', 'Opy.Gen', r'skel_GP_good|evalSites_ok')],
     'C13': [('OpyVerif.Proofs.C13', 'Opy', None),
-            ('OpyVerif.Proofs.C13code', 'Opy', None), ('OpyVerif.Proofs.Formulas', 'Opy', r'^d_(span|norm)$'),
+            ('OpyVerif.Proofs.C13code', 'Opy', None),
+            ('OpyVerif.Proofs.ClipCode', 'Opy', r'code_hyperClip'), ('OpyVerif.Proofs.ClipProg', 'Opy', r'hyperClip_run|clipRows_lit'),
+            ('OpyVerif.Generated.ClipLoops', 'Opy.Gen', r'hyperClip_eq|boundWrites_eq|no_other_clip_override'), ('OpyVerif.Proofs.Formulas', 'Opy', r'^d_(span|norm)$'),
             ('OpyVerif.Generated.FormulasC13', 'Opy.Gen', None),
             ('OpyVerif.Proofs.C06', 'Opy', r'clipHyper')],
     'C14': [('OpyVerif.Proofs.C14', 'Opy.G', None),
